@@ -1,4 +1,5 @@
 import ESV.Comp.Backend
+import ESV.Comp.Vocab
 /-
 Back-end lemmas of C03: for arbitrary labelled code the three passes
 strip_last_label → LabelFinalizer → OpsLabelJumpToRemover never invent an op offset, never duplicate one, and every
@@ -6,48 +7,6 @@ label offset they hand to a jump is the offset of an op that is still there at t
 -/
 namespace ESV.Comp
 open ESV
-
-/-! ### vocabulary -/
-
-/-- offsets of the real ops (plain ops and label jumps) of a labelled op list, in order -/
-def offs (l : List LItem) : List Nat := l.filterMap LItem.offsetOf
-
-/-- names of the plain (non-jump) ops -/
-def LItem.plainName : LItem → Option String
-  | .op o => some o.name
-  | _ => none
-
-def plainNames (l : List LItem) : List String := l.filterMap LItem.plainName
-
-/-- `name in OPS_WITH_JUMP_TO_MEM_OFFSET` -/
-def isJumpName (n : String) : Bool := (jumpIdx n).isSome
-
-/-- hypothesis of the back-end theorem: op offsets pairwise distinct across all routines -/
-def DistinctOffsets (rs : List (List LItem)) : Prop := (offs rs.flatten).Nodup
-
-instance (rs : List (List LItem)) : Decidable (DistinctOffsets rs) := by unfold DistinctOffsets; infer_instance
-
-/-- no plain op (one that reaches the result unchanged) is named like a jump-carrying op -/
-def NoRawJumpOps (rs : List (List LItem)) : Prop := ∀ n ∈ plainNames rs.flatten, isJumpName n = false
-
-instance (rs : List (List LItem)) : Decidable (NoRawJumpOps rs) := by unfold NoRawJumpOps; infer_instance
-
-/-- the last parameter is an int and the offset of an op of `all` -/
-def lastIntIn (all : List Nat) (params : List Param) : Bool :=
-  match params.getLast? with
-  | some (.int t) => all.any fun n => (n : Int) == t
-  | _ => false
-
-def jumpOK (all : List Nat) (o : Op) : Bool := !isJumpName o.name || lastIntIn all o.params
-
-def flatOffsets (ops : List (List Op)) : List Nat := ops.flatten.map (·.offset)
-
-/-- the op tables of a compile result: offsets pairwise distinct across routines, every jump-carrying op has an
-int last parameter that is the offset of an op of the result -/
-def ClosedOps (ops : List (List Op)) : Prop :=
-  (flatOffsets ops).Nodup ∧ ∀ o ∈ ops.flatten, jumpOK (flatOffsets ops) o = true
-
-instance (ops : List (List Op)) : Decidable (ClosedOps ops) := by unfold ClosedOps; infer_instance
 
 @[simp] theorem offs_nil : offs [] = [] := rfl
 @[simp] theorem offs_cons_op (o : Op) (l : List LItem) : offs (.op o :: l) = o.offset :: offs l := rfl
